@@ -58,7 +58,7 @@ StepAny == StepPreamble \/ StepPart \/ StepData \/ StepEpilogue
 EventMatches ==
   /\ st' = E.st /\ Len(buf') = E.buflen
   /\ (E.ev = "NeedData") <=> (drained' /\ ~drained)
-  /\ (E.ev = "Preamble") => (st = "PREAMBLE" /\ ~drained' /\ E.n = Search(buf, TRUE).s - 1)
+  /\ (E.ev = "Preamble") => (st = "PREAMBLE" /\ ~drained' /\ E.n = SearchPre(buf).s - 1)
   /\ (E.ev \in {"Field", "File"}) => (st = "PART" /\ st' = "DATA" /\ curKind' = (IF E.ev = "File" THEN "file" ELSE "field"))
   /\ (E.ev = "Data") =>
         /\ st = "DATA" /\ ~drained'
@@ -86,7 +86,7 @@ TEpilogue == /\ IsEv("ev") /\ complete /\ st = "EPILOGUE" /\ E.ev = "Epilogue"
 
 \* after the end of input anything that would need more data is malformed (the exception is logged as an event)
 WouldNeedData == \/ st = "COMPLETE"
-                 \/ (st = "PREAMBLE" /\ Search(buf, TRUE).s = 0)
+                 \/ (st = "PREAMBLE" /\ SearchPre(buf).s = 0)
                  \/ (st = "PART" /\ BlankSearch(buf)[1] = 0)
                  \/ (st = "DATA" /\ (IF ~HasDelim(buf) THEN (IF HoldFix THEN PartialStart(buf) ELSE LastNewline(buf)) = 0
                                      ELSE Search(buf, FALSE).s = 0 /\ UndecidedHold(buf) = 0))
